@@ -50,7 +50,7 @@ Proof.
     destruct (nthZ (firstn 32 b1) 0 =? Gen.LAST_DIR_ENTRY_MARK); [reflexivity|].
     destruct (nthZ (firstn 32 b1) 0 =? Gen.FREE_DIR_ENTRY_MARK); [apply IH; exact H3|].
     destruct (Gen.is_lfn_entry _ _).
-    + destruct (negb _); [reflexivity|]. destruct (existsb _ _); [reflexivity|]. apply IH; exact H3.
+    + destruct (negb _); [reflexivity|]. destruct (existsb (lfnslot_eqb _) pend); [apply IH; exact H3|]. destruct (existsb _ _); [reflexivity|]. apply IH; exact H3.
     + apply IH; exact H3.
 Qed.
 Lemma scan_fuel_enough n k b pend acc : length b = (32 * n)%nat -> scan_slots (n + k) b pend acc = scan_slots n b pend acc.
